@@ -302,7 +302,7 @@ func qsym(s string) string {
 	// quote a symbol if needed
 	simple := true
 	for _, c := range s {
-		if !(c >= 'a' && c <= 'z' || c >= 'A' && c <= 'Z' || c >= '0' && c <= '9' || c == '_' || c == '.' || c == '@' || c == '$' || c == '!' || c == '#') {
+		if !(c >= 'a' && c <= 'z' || c >= 'A' && c <= 'Z' || c >= '0' && c <= '9' || c == '_' || c == '.' || c == '@' || c == '$' || c == '!') {
 			simple = false
 			break
 		}
@@ -469,6 +469,12 @@ func (c *SMTCtx) Query(prefixLen int, goal Term, wantModel bool) string {
 		// string order: str_lt is the strict total order induced by an injective rank
 		b.WriteString("(assert (forall ((a Str) (b Str)) (! (= (str_lt a b) (< (str_rank a) (str_rank b))) :pattern ((str_lt a b)))))\n")
 		b.WriteString("(assert (forall ((a Str) (b Str)) (! (=> (= (str_rank a) (str_rank b)) (= a b)) :pattern ((str_rank a) (str_rank b)))))\n")
+	}
+	if strings.Contains(bs, "(sub ") {
+		b.WriteString("(assert (forall ((x Int) (i Int)) (! (and (= (objof (sub x i)) (objof x)) (= (sub_base (sub x i)) x) (= (sub_key (sub x i)) i) (not (= (sub x i) 0))) :pattern ((sub x i)))))\n")
+	}
+	if strings.Contains(bs, "(ea ") {
+		b.WriteString("(assert (forall ((a Int) (i Int)) (! (and (= (objof (ea a i)) (objof a)) (= (ea_base (ea a i)) a) (= (ea_idx (ea a i)) i) (= (sub_key (ea a i)) (- 1)) (not (= (ea a i) 0))) :pattern ((ea a i)))))\n")
 	}
 	if strings.Contains(bs, "str_len") {
 		b.WriteString("(assert (forall ((a Str)) (! (>= (str_len a) 0) :pattern ((str_len a)))))\n")
